@@ -18,6 +18,15 @@ history is replayed with the noise variances 0, 0.25 and 1 and judged by
 Inputs outside the preconditions of (1) (fewer channels than conditions, signal channel
 covariance given, non-embeddable model RDM, all points coincident, exact-signal option off) are
 generated, run through (3)-(5), excluded from (1) and counted.
+
+Model RDMs: every configuration of n_cond points on the integer grid {0,1,2}^d, d <= 2 (block A),
+every categorical model = set partition of the conditions (block E), every vector over {0,1,2}^m
+(block C); the product of all simulation options on representatives (block B).
+
+Finding on the pinned tree (genuine, signatures ...|rdm-mismatch): make_signal takes
+L @ sqrt(D) of scipy.linalg.ldl(G) as a square root of G, but the pivoted factorisation returns
+2x2 blocks in D for some rank-deficient G (first two conditions identical and >= 5 conditions,
+e.g. the categorical model A A B C B), so the simulated data have another RDM than the model.
 """
 import functools
 import itertools
